@@ -364,6 +364,12 @@ impl VM {
                         )));
                     }
                     let [ip, num_locals] = obj.as_function();
+                    if num_args as u32 > num_locals {
+                        return Err(Error::ArgumentError(format!(
+                            "functie kreeg {} argumenten, maar heeft maar ruimte voor {}",
+                            num_args, num_locals
+                        )));
+                    }
 
                     // Make room on the stack for any local variables defined inside this function
                     for _ in 0..num_locals - num_args as u32 {
